@@ -62,6 +62,8 @@ func main() {
 	flag.StringVar(&out, "out", "", "write JSON report here")
 	flag.StringVar(&list, "list", "", "only list harnesses matching the regexp")
 	flag.IntVar(&jobs, "j", 8, "harnesses run in parallel")
+	var noStub string
+	flag.StringVar(&noStub, "no-stub", "", "regexp: execute the real code of matching callees instead of their contract stub")
 	var prof string
 	flag.StringVar(&prof, "cpuprofile", "", "write cpu profile")
 	flag.Parse()
@@ -71,6 +73,14 @@ func main() {
 		defer pprof.StopCPUProfile()
 	}
 
+	if noStub != "" {
+		nre := regexp.MustCompile(noStub)
+		for k := range intrinsics {
+			if nre.MatchString(k) {
+				delete(intrinsics, k)
+			}
+		}
+	}
 	cfg.Params = map[string]int{}
 	for _, kv := range strings.Split(params, ",") {
 		if k, v, ok := strings.Cut(kv, "="); ok {
